@@ -1,6 +1,13 @@
 (* C19 — Validation work is bounded by the size of the proof set.
-   The full statement is FALSE of the code (and of its model): refuted by a witness. *)
-From Ucanto Require Import Base Pattern Time Validator Check_Validator ValidatorCost.
+   The full statement (quadratic in the number of distinct delegations, for every proof-DAG
+   shape) is FALSE of the code and of its model.  What holds, for all inputs:
+     - the work is bounded by the PATH WEIGHT of the invocation (one unit per citation path
+       and capability alternative), for every store, context, descriptor, fuel, invocation;
+     - forests of single-capability did:key delegations are linear, chains of every depth
+       cost exactly one verification per token;
+     - layered DAGs of every width w and depth d with failing roots cost exactly
+       1 + w + ... + w^d, which exceeds the quadratic bound for every w >= 2 and d >= 10. *)
+From Ucanto Require Import Base Pattern Time Validator Check_Validator ValidatorCost ValidatorBound.
 Open Scope N_scope.
 
 (* full statement: for every world the number of signature verifications is at most
@@ -17,11 +24,146 @@ Theorem C19_witness : verifications (layered_world 3 5) = 364 /\ delegations (la
 Proof. exact layered_3_5. Qed.
 Print Assumptions C19_witness.
 
-(* partial (finite instances, by computation): chains of 1..12 single-capability delegations
-   cost exactly one verification per token, with succeeding and with failing roots *)
-Theorem C19_chains_linear_partial :
-  forallb (fun d => (verifications (chain_world d false) =? N.of_nat d + 1) &&
-                    (verifications (chain_world d true) =? N.of_nat d + 1))
-          (seq 1 12) = true.
-Proof. exact chains_linear. Qed.
-Print Assumptions C19_chains_linear_partial.
+(* ------------------------------------------------------------------ *)
+(* the positive half: a bound that holds for every input                *)
+
+(* the number of verifications Access makes never exceeds the path weight of the invocation:
+   every proof is validated once per citation path that reaches it and per capability
+   alternative offered along that path (plus, for issuers that are neither did:key nor the
+   authority, the same count for the search of an attestation among its siblings) *)
+Theorem C19_work_le_path_weight :
+  forall (U : link -> option token) (C : ctx) (n : nat) (ds : desc) (inv : dlg),
+    count_verifies (snd (access U C n ds inv)) <= paths_weight U C n inv.
+Proof. exact access_cost. Qed.
+Print Assumptions C19_work_le_path_weight.
+
+(* the weight only grows with the fuel (longer paths are counted), so the weight at any larger
+   fuel is a bound as well: running out of fuel never makes the statement true *)
+Theorem C19_work_le_path_weight_any_fuel :
+  forall (U : link -> option token) (C : ctx) (n m : nat) (ds : desc) (inv : dlg), (n <= m)%nat ->
+    count_verifies (snd (access U C n ds inv)) <= paths_weight U C m inv.
+Proof. exact access_cost_any_fuel. Qed.
+Print Assumptions C19_work_le_path_weight_any_fuel.
+
+(* (b) whenever the path weight is within the quadratic bound, so is the work: sharing
+   (a proof reached along several paths) and alternatives are the only source of a blow-up *)
+Theorem C19_quadratic_if_weight :
+  forall (U : link -> option token) (C : ctx) (n : nat) (ds : desc) (inv : dlg) (k : N),
+    paths_weight U C n inv <= k * k + 2 ->
+    count_verifies (snd (access U C n ds inv)) <= k * k + 2.
+Proof. exact access_quadratic_if_weight. Qed.
+Print Assumptions C19_quadratic_if_weight.
+
+(* (a) forests: every issuer a did:key (or the authority), at most one capability per
+   delegation, no delegation reached along two citation paths: at most |dom| + 1
+   verifications, for any list dom containing the delegations reached *)
+Theorem C19_forest_linear :
+  forall (U : link -> option token) (C : ctx),
+    (forall l t, U l = Some t -> direct_iss C t = true) ->
+    (forall l t, U l = Some t -> (length (t_caps t) <= 1)%nat) ->
+    forall (n : nat) (ds : desc) (inv : dlg) (dom : list link),
+      NoDup (reach U C (pred n) inv) -> incl (reach U C (pred n) inv) dom ->
+      count_verifies (snd (access U C n ds inv)) <= N.of_nat (length dom) + 1.
+Proof. exact forest_linear. Qed.
+Print Assumptions C19_forest_linear.
+
+(* the same with the forest condition stated on the citations: the store is acyclic, no token
+   lists a proof twice and no proof is cited by two different tokens *)
+Theorem C19_cited_once_linear :
+  forall (U : link -> option token) (C : ctx),
+    (forall l p, resolve_proof C l = Some p -> d_link p = l) ->
+    forall rank : link -> nat,
+    (forall l t p, U l = Some t -> In p (t_prf t) -> (rank p < rank l)%nat) ->
+    (forall l t, U l = Some t -> NoDup (t_prf t)) ->
+    (forall l1 t1 l2 t2 p, U l1 = Some t1 -> U l2 = Some t2 ->
+       In p (t_prf t1) -> In p (t_prf t2) -> l1 = l2) ->
+    forall (n : nat) (ds : desc) (inv : dlg) (dom : list link),
+      (forall l t, U l = Some t -> direct_iss C t = true) ->
+      (forall l t, U l = Some t -> (length (t_caps t) <= 1)%nat) ->
+      incl (reach U C (pred n) inv) dom ->
+      count_verifies (snd (access U C n ds inv)) <= N.of_nat (length dom) + 1.
+Proof. exact cited_once_linear. Qed.
+Print Assumptions C19_cited_once_linear.
+
+(* for a world given as a finite token list that passes the decidable forest certificate:
+   verifications <= delegations + 1, within the quadratic bound of the property *)
+Theorem C19_forest_world_linear :
+  forall (w : wcase) (rank : link -> nat) (n : nat),
+    forest_cert (wc_ctx w) rank (wc_tokens w) = true ->
+    (forall l p, alookup l (wc_resolver w) = Some p -> d_link p = l) ->
+    incl (reach (wc_U w) (wc_ctx w) (pred n) (wc_inv w)) (map fst (wc_tokens w)) ->
+    verifications_at n w <= delegations w + 1.
+Proof. exact forest_world_linear. Qed.
+Print Assumptions C19_forest_world_linear.
+
+(* ------------------------------------------------------------------ *)
+(* chains, every depth                                                  *)
+
+(* a chain of d single-capability delegations costs exactly d + 1 verifications, with a
+   succeeding and with a failing root, for every depth; any fuel >= d + 2 suffices and the
+   result is a verdict, not out-of-fuel *)
+Theorem C19_chains_linear :
+  forall (root_ok : bool) (d n : nat), (d + 2 <= n)%nat ->
+    (if root_ok return Prop
+     then exists a, fst (run_at n (chain root_ok d)) = AOk a
+     else exists e, fst (run_at n (chain root_ok d)) = AErr e) /\
+    verifications_at n (chain root_ok d) = N.of_nat d + 1.
+Proof. exact chain_cost. Qed.
+Print Assumptions C19_chains_linear.
+
+(* with the fuel run_world uses (the correspondence runs): all depths it can handle *)
+Theorem C19_chains_linear_run_world :
+  forall (root_ok : bool) (d : nat), (d <= 38)%nat -> verifications (chain root_ok d) = N.of_nat d + 1.
+Proof. exact chain_cost_run_world. Qed.
+Print Assumptions C19_chains_linear_run_world.
+
+(* ------------------------------------------------------------------ *)
+(* layered DAGs, every width and depth (the negative half)              *)
+
+(* geo w d = 1 + w + ... + w^d: V(0) = 1, V(d+1) = 1 + w * V(d) *)
+Theorem C19_geo_recurrence : forall w d, geo w 0 = 1 /\ geo w (S d) = 1 + w * geo w d.
+Proof. exact geo_recurrence. Qed.
+Print Assumptions C19_geo_recurrence.
+Theorem C19_geo_closed_form : forall w d, 2 <= w -> geo w d = (w ^ N.of_nat (S d) - 1) / (w - 1).
+Proof. exact geo_div. Qed.
+Print Assumptions C19_geo_closed_form.
+
+(* d layers of w delegations, each citing the whole layer below, roots issued by a stranger:
+   Access answers Unauthorized after exactly 1 + w + ... + w^d verifications *)
+Theorem C19_layered_cost :
+  forall (w d n : nat), (d + 2 <= n)%nat ->
+    (exists e, fst (run_at n (lay_world false w d)) = AErr e) /\
+    verifications_at n (lay_world false w d) = geo (N.of_nat w) d.
+Proof. exact lay_fail_cost. Qed.
+Print Assumptions C19_layered_cost.
+
+(* the same proof sets with roots issued by the owner: the first path succeeds and the work
+   is one verification per delegation *)
+Theorem C19_layered_ok_linear :
+  forall (w d n : nat), (1 <= w)%nat -> (d + 2 <= n)%nat ->
+    (exists a, fst (run_at n (lay_world true w d)) = AOk a) /\
+    verifications_at n (lay_world true w d) = delegations (lay_world true w d).
+Proof. exact lay_ok_linear. Qed.
+Print Assumptions C19_layered_ok_linear.
+
+(* on this family the general bound is attained: work = path weight *)
+Theorem C19_path_weight_attained :
+  forall (w d n : nat), (d + 2 <= n)%nat ->
+    verifications_at n (lay_world false w d) =
+    paths_weight (wc_U (lay_world false w d)) (wc_ctx (lay_world false w d)) n (wc_inv (lay_world false w d)).
+Proof. exact lay_weight_tight. Qed.
+Print Assumptions C19_path_weight_attained.
+
+(* the quadratic bound fails for EVERY width >= 2 from depth 10 on (delegations = w*d + 1) *)
+Theorem C19_layered_exceeds_quadratic :
+  forall (w d n : nat), (2 <= w)%nat -> (10 <= d)%nat -> (d + 2 <= n)%nat ->
+    delegations (lay_world false w d) = N.of_nat (w * d + 1) /\
+    delegations (lay_world false w d) * delegations (lay_world false w d) + 2
+      < verifications_at n (lay_world false w d).
+Proof. exact lay_exceeds_quadratic_full. Qed.
+Print Assumptions C19_layered_exceeds_quadratic.
+
+(* with run_world's own fuel: a refuting world for every width *)
+Theorem C19_refuted_family : forall w : nat, (2 <= w)%nat -> exists d, ~ quadratic_bound (lay_world false w d).
+Proof. exact refuted_family. Qed.
+Print Assumptions C19_refuted_family.
